@@ -103,6 +103,9 @@ def resource_arns():
         for account in ("", "0123456789"):
             for rt, res in (("stateMachine", "m"), ("stateMachine", "M-3_x.y"), ("execution", "m:e"), ("execution", "m:00000000-0000-4000-8000-000000000001"), ("function", "f"), ("activity", "a")):
                 out.append("arn:aws:states:%s:%s:%s:%s" % (region, account, rt, res))
+                # every partition and another service (the parts are independent of each other)
+                for partition, service in (("aws-cn", "states"), ("aws-us-gov", "states"), ("aws", "lambda"), ("aws-cn", "lambda")):
+                    out.append("arn:%s:%s:%s:%s:%s:%s" % (partition, service, region, account, rt, res))
     return sorted(set(out))
 
 
@@ -182,7 +185,7 @@ def check_engine(sm_name, ex_name, mode):
     from .. import world as W
     arn, ra, rb = mods()
     fails = []
-    typ = "EXPRESS" if mode == "EXPRESS" else "STANDARD"
+    typ = "EXPRESS" if mode in ("EXPRESS", "foreign-region-express", "foreign-region-sync") else "STANDARD"
     w = W.World(seed=17, tick=0.0, execution_ttl=50 if mode == "backstop" else 86400)
     try:
         w.add_engine("A")
@@ -201,11 +204,34 @@ def check_engine(sm_name, ex_name, mode):
         want_sm = W.sm_arn(sm_name)
         if sm != want_sm:
             fails.append(("engine-sm-arn", "CreateStateMachine(%r) returned %r" % (sm_name, sm)))
-        st_, r = w.start_execution(sm, {"x": 1}, name=ex_name)
+        region = "local"
+        if mode.startswith("foreign-region"):
+            # the store is shared with an instance configured for another region: the machine was created there, this instance runs its executions
+            region = "eu-west-2"
+            store = w.engine().state_engine.asl_store
+            foreign = sm.replace(":local:", ":%s:" % region, 1)
+            rec_ = dict(store[sm])
+            rec_["stateMachineArn"] = foreign
+            store[foreign] = rec_
+            del store[sm]
+            sm = foreign
+        if mode == "foreign-region-sync":
+            t_ = w.engine().api_task("StartSyncExecution", {"stateMachineArn": sm, "input": json.dumps({"x": 1}), "name": ex_name})
+            w.api_tasks.append(t_)
+            W.spin(5)
+            w.run()
+            W.spin(5)
+            if not t_.done():
+                return fails + [("engine-start-sync-no-answer", "StartSyncExecution(name=%r) did not answer" % (ex_name,))]
+            st_, r = t_.result()
+            if st_ == 200 and r.get("stateMachineArn") != sm:
+                fails.append(("engine-start-sync-answer-identifiers", "StartSyncExecution answered stateMachineArn=%r for %r" % (r.get("stateMachineArn"), sm)))
+        else:
+            st_, r = w.start_execution(sm, {"x": 1}, name=ex_name)
         if st_ != 200:
             return fails + [("engine-start-refused", "StartExecution(name=%r) -> %r" % (ex_name, r))]
         ex = r["executionArn"]
-        want_ex = "arn:aws:states:local:%s:execution:%s:%s" % (W.ACCOUNT, sm_name, ex_name)
+        want_ex = "arn:aws:states:%s:%s:execution:%s:%s" % (region, W.ACCOUNT, sm_name, ex_name)
         if ex != want_ex:
             fails.append(("engine-execution-arn", "StartExecution returned %r expected %r" % (ex, want_ex)))
         if mode == "restart":
@@ -258,7 +284,7 @@ def engine_shard(k, seed, tier, examples=10):
 
     @hypothesis.seed(seed)
     @settings(max_examples=examples, deadline=None, database=None, suppress_health_check=list(HealthCheck), phases=[Phase.generate])
-    @given(good, good, st.sampled_from(["STANDARD", "EXPRESS", "restart", "backstop"]))
+    @given(good, good, st.sampled_from(["STANDARD", "EXPRESS", "restart", "backstop", "foreign-region", "foreign-region-express", "foreign-region-sync"]))
     def run(a, b, mode):
         case = {"kind": "engine", "sm": a, "ex": b, "mode": mode}
         try:
@@ -309,6 +335,6 @@ def main(tier, seed, replay=None):
     else:
         run_shards(camp, __name__, "pure_shard", 8, nshards=8, maxlen=3)
         run_shards(camp, __name__, "random_shard", 4, examples=1500)
-        run_shards(camp, __name__, "engine_shard", 8, examples=8)
+        run_shards(camp, __name__, "engine_shard", 8, examples=14)
     camp.extra["exhaustive_subdomain"] = "all names up to length 3 (quick) / 4 (thorough) over the 31-character alphabet are enumerated completely"
     return camp.finish()
